@@ -32,7 +32,9 @@ def harness_cfg(name, retries=1, unsol=True):
     return {"sol_buf": 249, "unsol_buf": 249, "confirm_to": TIMING["ConfirmTO"],
             "select_to": TIMING["SelectTO"], "retry_delay": TIMING["RetryDelay"],
             "max_retries": None if retries < 0 else retries, "unsol": unsol,
-            "evmax": m["evmax"], "class_zero": [True] * 8, "points": pts, "keep_alive": None}
+            "evmax": m["evmax"], "class_zero": [True] * 8, "points": pts, "keep_alive": None,
+            # control object set "b" (index 2): the handler refuses the select with NOT_SUPPORTED
+            "app": {"ctl_default": 0, "ctl_select": [[2, 4]]}}
 
 
 def upd_val(pt, n):
@@ -48,7 +50,36 @@ def hdr(tok):
     return {"g": 60, "v": v, "q": 6}
 
 
+def crob_header(index):
+    # g12v1, qualifier 0x17 (1-byte count, 1-byte index): code 3, count 1, on 100 ms, off 200 ms, status 0
+    data = bytes([index, 3, 1]) + (100).to_bytes(4, "little") + (200).to_bytes(4, "little") + bytes([0])
+    return {"g": 12, "v": 1, "q": 0x17, "count": 1, "data": data.hex()}
+
+
+def addressing(st, h):
+    if h.get("src", "M") != "M":
+        st["src"] = 2
+    dst = h.get("dst", "U")
+    if dst != "U":
+        st["dst"] = {"BC_OPT": 0xFFFF, "BC_MAN": 0xFFFE, "BC_NR": 0xFFFD}[dst]
+
+
 def steps_of(hist, name):
+    out = _steps_of(hist, name)
+    # a repeat re-sends the bytes of the previous request: it inherits that request's class tag
+    last_tag = None
+    for st in out:
+        if st["k"] == "rx":
+            if st.get("repeat") and last_tag is not None and "tag" not in st:
+                st["tag"] = last_tag
+            elif not st.get("repeat"):
+                last_tag = st.get("tag")
+        elif st["k"] in ("cut",):
+            last_tag = None
+    return out
+
+
+def _steps_of(hist, name):
     pts = MODEL_CFGS[name]["points"]
     out, n = [], 0
     for h in hist:
@@ -63,12 +94,34 @@ def steps_of(hist, name):
             out.append({"k": "upd", "ty": pt[0], "ix": pt[1], "val": upd_val(pt, n), "fl": 1,
                         "tm": 1000 + n, "mode": "force"})
         elif k == "read":
-            out.append({"k": "rx", "fn": "read", "seq": h["seq"], "hdrs": [hdr(t) for t in h["hs"]],
-                        "repeat": bool(h["rep"])})
+            st = {"k": "rx", "fn": "read", "seq": h["seq"], "hdrs": [hdr(t) for t in h["hs"]],
+                  "repeat": bool(h["rep"])}
+            if h.get("bad") == "badobj":
+                st["hdrs"] = [{"raw": "016306"}]      # g1 v99: unknown variation
+                st["tag"] = {"cls": "badobj"}
+            addressing(st, h)
+            out.append(st)
         elif k == "req":
-            fn = {"delay": "delay_measure", "enable": "enable_unsol", "disable": "disable_unsol"}[h["f"]]
-            hdrs = [{"g": 60, "v": c + 1, "q": 6} for c in sorted(h["cl"])]
-            out.append({"k": "rx", "fn": fn, "seq": h["seq"], "hdrs": hdrs, "repeat": bool(h["rep"])})
+            f = h["f"]
+            st = {"k": "rx", "seq": h["seq"], "repeat": bool(h["rep"])}
+            if f in ("delay", "enable", "disable"):
+                st["fn"] = {"delay": "delay_measure", "enable": "enable_unsol", "disable": "disable_unsol"}[f]
+                st["hdrs"] = [{"g": 60, "v": c + 1, "q": 6} for c in sorted(h["cl"])]
+            elif f in ("select", "operate", "dop", "dopnr"):
+                st["fn"] = {"select": "select", "operate": "operate", "dop": "direct_operate",
+                            "dopnr": "direct_operate_nr"}[f]
+                st["hdrs"] = [crob_header(1 if h.get("ob", "a") == "a" else 2)]
+            elif f == "write_rst":
+                st["fn"] = "write"
+                st["hdrs"] = [{"g": 80, "v": 1, "q": 0, "start": 7, "stop": 7, "data": "00"}]
+            elif f == "unkfn":
+                st["fn"] = 112
+                st["hdrs"] = []
+                st["tag"] = {"cls": "unkfn"}
+            else:
+                raise ValueError("unknown request %r" % (h,))
+            addressing(st, h)
+            out.append(st)
         elif k == "conf":
             out.append({"k": "confirm", "uns": bool(h["uns"]), "seq": h["seq"]})
         else:
